@@ -241,7 +241,7 @@ register_type("mc_strictint", StrictInt)
 
 # A PARAMETRISED user-defined type whose printed form does not show its parameter (it defines
 # no __represent__, so the library prints "<MultipleOf>"): ints divisible by props.n.  And a
-# subclass of it with the same props that narrows the meaning (positive multiples only).
+# subclass of it with the same props and ANOTHER meaning (ints that are not divisible by n).
 class MultProps(Props):
     @property
     def n(self) -> Any:
@@ -256,7 +256,7 @@ class MultipleOf(CustomSchema[MultProps]):
         return value % self.props.n == 0
 
     def __generate__(self, visitor: Any, **kwargs: Any) -> Any:
-        return self.props.n * 2
+        return self.props.n * 2 if self._ok(self.props.n * 2) else self.props.n * 2 + 1
 
     def __validate__(self, visitor: Any, *, value: Any = Nil, path: Any = Nil, **kwargs: Any) -> Any:
         from d42.validation.errors import TypeValidationError, ValueValidationError
@@ -266,17 +266,17 @@ class MultipleOf(CustomSchema[MultProps]):
         if not isinstance(value, int):
             result.add_error(TypeValidationError(path, value, int))
         elif not self._ok(value):
-            result.add_error(ValueValidationError(path, value, self.props.n * 2))
+            result.add_error(ValueValidationError(path, value, self.__generate__(visitor)))
         return result
 
     def __substitute__(self, visitor: Any, *, value: Any = Nil, **kwargs: Any) -> Any:
         return self
 
 
-class PositiveMultipleOf(MultipleOf):
+class NonMultipleOf(MultipleOf):
     def _ok(self, value: Any) -> bool:
-        return value > 0 and value % self.props.n == 0
+        return value % self.props.n != 0
 
 
 register_type("mc_mult", MultipleOf)
-register_type("mc_pmult", PositiveMultipleOf)
+register_type("mc_nmult", NonMultipleOf)
